@@ -415,7 +415,10 @@ func (p *PsUnpacker) parseAvStream(code int, rtpts uint32, rb []byte, index int)
 						}
 					}
 				} else {
+					// a pes without pts continues the frame under assembly: it shares its dts as well. dts was
+					// derived from pts above, before pts was taken over, and the frame went out with dts -1 (0 ms)
 					pts = p.preAudioPts
+					dts = p.preAudioDts
 				}
 			} else {
 				if pts != p.preAudioPts && p.preAudioPts >= 0 {
